@@ -28,6 +28,8 @@ def box(name, nv):
         return [1.0] * nv, [1.0 + 1e-9] * nv
     if name == 'wide':
         return [-5e5] * nv, [5e5] * nv
+    if name == 'negfrac':                    # integer lower bounds with negative fractional upper bounds (given as Python ints / floats)
+        return [-10.0] * nv, [-0.5, -2.5, -0.25, -7.5, -1.5][:nv]
     if name == 'tiny':                       # squares of the coordinates are of the order of EPSILON = 1e-10
         return [0.0] * nv, [1.2e-5] * nv
     if name == 'mid':                        # thousands wide: far below RPSO's light-speed constant
@@ -429,6 +431,27 @@ def hunts(quick, focus, timeout):
                  'store_best_only': False, 'hook': 'observe', 'functions': 'arith', 'depth': (1, 3), 'n_terminals': 2}
             cfg = make(o, s_, c, 9980 + i, max(timeout, 30.0) if big else timeout)
             cfg['other_space'] = True
+            cfg['repro'] = False
+            out.append(cfg)
+    # bound lists of mixed Python types (integer lower bounds, fractional upper bounds): the declared box is the one given
+    for o in opts:
+        if o == 'GP' or 'search' not in WR[o]['spaces']:
+            continue
+        for i in range(1 if quick else 3):
+            c = {'objective': ['sphere', 'linear', 'shifted'][i % 3], 'ret': 'pyfloat', 'box': 'negfrac', 'agents': [5, 'min', 12][i % 3],
+                 'n_variables': [2, 3, 1][i % 3], 'n_dimensions': 1, 'n_iterations': [5, 3, 8][i % 3], 'draws': 'seeded', 'hp': 'default',
+                 'store_best_only': False, 'hook': 'observe'}
+            cfg = make(o, 'search', c, 9960 + i, timeout)
+            cfg['int_lb'] = True
+            cfg['repro'] = False
+            out.append(cfg)
+    # Levy flights with a Gaussian draw that is exactly zero (scripted): the step is infinite -- shapes, sizes and records must survive it
+    for o in [x for x in ('FPA', 'CS') if x in opts]:
+        for i in range(2 if quick else 6):
+            c = {'objective': ['sphere', 'linear'][i % 2], 'ret': 'pyfloat', 'box': ['sym10', 'asym'][i % 2], 'agents': [5, 3][i % 2], 'n_variables': [2, 3][i % 2],
+                 'n_dimensions': 1, 'n_iterations': [6, 12][i % 2], 'draws': ['gauss', 'mixed'][i % 2], 'hp': 'default', 'store_best_only': False, 'hook': 'observe'}
+            cfg = make(o, 'search', c, 9940 + i, timeout)
+            cfg['only_props'] = ['C07']          # the NaN the scripted zero itself produces is recorded finding (CS/FPA) of C01
             cfg['repro'] = False
             out.append(cfg)
     # SCALE: long runs, large populations, many variables -- something that accumulates, a counter or index type that overflows, a
